@@ -358,6 +358,28 @@ C["C18"] = {
  "trusted_base": ENGINE_TB + ["reference matcher rMatch in harness/hooks_auth/c18.go"],
 }
 
+# ---------------- C40 ----------------
+C["C40"] = {
+ "pkgs": ["."],
+ "technique": "bounded symbolic execution of Server.Publish/Subscribe/Unsubscribe (inline client API), InlineSubscribe/InlineUnsubscribe and the inline gathering in scanSubscribers over solver-chosen histories, against a set model of (identifier, filter) pairs and the reference matcher",
+ "quick": {"harnesses": [H("VerifC40Inline", STEPS=2)], "budget_s": 400, "witnesses": 8, "perm_limit": 2,
+   "bounds": "every history of 2 steps among {inline subscribe (id 1..2, filter in {a/b, a/#, a/+, #}), inline unsubscribe, Publish(topic in {a, a/b}, QoS 0..2, retain)}, one regular client subscribed to a/# with symbolic QoS"},
+ "thorough": {"harnesses": [H("VerifC40Inline", STEPS=3)], "budget_s": 3000, "witnesses": 16, "perm_limit": 2, "bounds": "as quick with histories of 3 steps"},
+ "outside_bounds": ["longer histories", "inline subscription handlers that publish re-entrantly"],
+ "stubs": SRV_STUBS, "trusted_base": SRV_TB,
+}
+# ---------------- C41 ----------------
+C["C41"] = {
+ "pkgs": ["./mempool"],
+ "technique": "bounded exploration by the same engine of every get/write/put script against an adversarial sync.Pool model (Get returns ANY pooled element or a fresh one); bytes.Buffer is the real code; the data is concrete here, so the solver only sees trivial queries: the verdict is by exhaustive path enumeration within the bound",
+ "quick": {"harnesses": [H("VerifC41Pool", CAP=0, STEPS=4), H("VerifC41Pool", CAP=4, STEPS=4, W=6), H("VerifC41Global")], "budget_s": 120, "witnesses": 6, "pool_adversarial": True,
+   "bounds": "every script of 4 steps among {get, write 0..6 bytes to a held buffer, put a held buffer}; uncapped pool and pool capped at 4 bytes"},
+ "thorough": {"harnesses": [H("VerifC41Pool", CAP=0, STEPS=6), H("VerifC41Pool", CAP=4, STEPS=6, W=9), H("VerifC41Global")], "budget_s": 900, "witnesses": 12, "pool_adversarial": True, "bounds": "scripts of 6 steps, writes up to 9 bytes"},
+ "outside_bounds": ["sync.Pool's own thread safety (trusted)", "a user that keeps using a buffer after Put (a misuse by the caller, not by the pool)"],
+ "stubs": ["sync.Pool: bag; Get returns any element or New() (decision)"],
+ "trusted_base": ENGINE_TB,
+}
+
 def main():
     os.makedirs(os.path.join(root, "checks"), exist_ok=True)
     for cid, c in C.items():
